@@ -1,6 +1,7 @@
 """C18 (story graph) and C12 (well-formed, navigation-safe output) families: compiled stories from the
 generator, from the repository's own .bard files, and from a corrupted-call-site stream; the REAL
 extract_connections / compiler vs the Lean model, plus the properties evaluated on the real results."""
+import re
 import ast
 import copy
 import glob
@@ -241,8 +242,13 @@ def check_story(story, model, walk_case, label, source=None, corrupted=None):
             r = st["resp"]
             if op["op"] == "choose" and r.get("raise") == "ValueError":
                 msg = r.get("msg", "")
-                if "unknown passage" in msg or "Required parameter" in msg or "not found" in msg:
+                if "unknown passage" in msg or "Required parameter" in msg or "not found" in msg or "provided multiple times" in msg:
                     add(f12, f"play failed with a navigation error: {msg[:100]}", "C12-nested-unvalidated" if bad_nested else None)
+                # a default that cannot see an EARLIER parameter of its own passage is a binding failure, not author code failing
+                m_ = re.search(r"Could not evaluate default for parameter '(\w+)'.*name '(\w+)' is not defined", msg)
+                if m_ and any(m_.group(2) in [q["name"] for q in p_.get("params", [])] and m_.group(1) in [q["name"] for q in p_.get("params", [])]
+                              for p_ in story["passages"].values()):
+                    add(f12, f"play failed binding the arguments of a call the compiler accepted: {msg[:140]}", "C12-nested-unvalidated" if bad_nested else None)
     return f18, f12, dis
 
 
@@ -259,7 +265,7 @@ def _chunk(arg):
     items = []
     for idx in idxs:
         r = rng_for(seed, "graph", idx)
-        a = gen_story.generate(r.randrange(1 << 30), dict(params=0.7, block_jumps=0.5, top_jumps=0.4, block_choices=0.6, join=0.4, hooks=0.3, empty_passage=0.5, odd_names=0.35))
+        a = gen_story.generate(r.randrange(1 << 30), dict(params=0.7, long_params=0.7, block_jumps=0.5, top_jumps=0.4, block_choices=0.6, join=0.4, hooks=0.3, empty_passage=0.5, odd_names=0.35))
         corrupted = None
         if r.random() < 0.45:
             corrupted = corrupt(r, a)
